@@ -79,6 +79,14 @@ class CompactDiskAudioImage(Image):
 
     @property
     def children(self):
+        # apply the naming routines (safe / export names) once they are set
+        routines = getattr(self, "_routines", None) or {}
+        if len(routines) > 0 and not getattr(self, "_routines_applied", False):
+            tracks = self.tracks
+            for routine in routines.values():
+                tracks = routine(tracks)
+            self.tracks = tracks
+            self._routines_applied = True
         return self.tracks
 
     def combine_stereo_routine(self, samples: List[Sample]) -> List[Sample]:
